@@ -1090,6 +1090,10 @@ def rep_null_elements(doc, ctx):
                 s["items"] = [opt(x) for x in s["items"]]; ctx["changed"] = True
         if s.get("type") == "object" and isinstance(s.get("additionalProperties"), dict) and "properties" not in s:
             s["additionalProperties"] = opt(s["additionalProperties"]); ctx["changed"] = True
+        # a Map with a constrained key field is exported through patternProperties (since the F16b repair)
+        if s.get("type") == "object" and isinstance(s.get("patternProperties"), dict) and "properties" not in s \
+                and all(isinstance(x, dict) for x in s["patternProperties"].values()):
+            s["patternProperties"] = {k: opt(x) for k, x in s["patternProperties"].items()}; ctx["changed"] = True
     walk_schemas(doc, fn)
 
 
